@@ -34,7 +34,26 @@ NEEDS = {
  'r2_C13_pop_status_before_elem': 'a batch with a push and a pop where the pop is served from the just-pushed element and belongs to another thread than the handler; the popper reads its output before the handler wrote it',
  'r2_C15_limiter_future_decrement': 'a decrement reaches the limiter while the put that forwarded its message is still in flight and the count is 0',
  'r2_C19_once_loop_condition': 'winner`s function throws while another caller is moonlighting as helper',
- 'r2_C20': '',
+ 'r2_C01_get_task_head_restore': 'an owner whose deque holds only tasks it must skip (isolation mismatch) in front of the one it takes: get_task drains the pool with omitted tasks and restores head',
+ 'r2_C02_mutex_unlock_plain_store': 'a contended tbb::mutex whose waiter is entering prepare_wait when the owner unlocks; store-buffer delay of the owner`s flag store (TSO), and no later unlock',
+ 'r2_C03_cancel_not_atomic': 'two threads cancelling the same task_group_context at the same time (e.g. two bodies throwing): both become "first canceller"',
+ 'r2_C03_cancel_not_atomic__asC04': 'as r2_C03_cancel_not_atomic (same patch run against the C04 check)',
+ 'r2_C09_try_push_head_hoisted': 'bounded queue at capacity-1..capacity: try_push whose CAS is retried after another thread popped and pushed in between',
+ 'r2_C10_find_mask_race_disabled': 'find/count overlapping a table growth and the lazy split of exactly the bucket it looks at, delayed between loading my_mask and acquiring the bucket lock',
+ 'r2_C11_segment_base_trunc32': 'a concurrent_vector (or any segment_table user) with >= 2^32 elements',
+ 'r2_C12_skiplist_swap_height': 'swap() of a populated concurrent ordered container with an empty or shallower one, then lookups in the taller list',
+ 'r2_C14_reset_forwarder_busy': 'a rejecting function_node whose forwarder task was pending when the graph was cancelled, then graph::reset() and reuse',
+ 'r2_C16_mandatory_allotment': 'global_control max_allowed_parallelism=1 (soft limit 0) with two or more arenas having enqueued (mandatory) work',
+ 'r2_C17_realloc_copysize': 'realloc of a large (>= 8 KB class) object to a size within 16 bytes of the end of its block',
+ 'r2_C18_slab_rollback_stride': 'slab refill (several slabs at once) during which the back-reference table cannot grow (out of memory) after the first slab got its back reference',
+ 'r2_C20_critical_resume_not_advertised': 'a task suspended from inside a critical task, resumed while every thread of the arena is asleep or leaving',
+ 'r3_C06_scan_sum_slot_early': 'a parallel_scan body that enters the scheduler (nested parallelism / wait) so that the waiting thread runs its own not-yet-started right sibling',
+ 'r3_C07_serial_ooo_entry_skipped': 'a serial_out_of_order filter that is not the first filter, >= 2 threads and >= 2 live tokens',
+ 'r3_C09_try_pop_empty_eq': 'concurrent_bounded_queue with a blocked pop() (negative size) while another thread calls try_pop; with abort() an element is lost',
+ 'r3_C10_erase_prev_not_reset': 'two threads erasing by key two different keys of one bucket chain, the one erasing the predecessor winning the in-place lock upgrade',
+ 'r3_C13_reheap_mark_jump': 'one aggregator batch that contains a pop followed by pushes (elements appended behind mark) on a non-empty heap',
+ 'r3_C16_exit_observer_after_release': 'an arena with observers where a thread leaves task_arena::execute while another thread waits for a slot',
+ 'r3_C19_ets_tls_clear': 'enumerable_thread_specific<T, A, ets_key_per_instance> used by >= 2 threads, clear()/assignment by one of them, then local() on another',
 }
 def main():
     confirm = {}
